@@ -10,6 +10,7 @@ import Splipy.Lemmas.C05Periodic
 import Splipy.Lemmas.C05Lower
 import Splipy.Lemmas.C05PerGeom
 import Splipy.Lemmas.C05PerDir
+import Splipy.Lemmas.C05Examples
 
 /-!
 # Property C05 — order elevation preserves geometry and continuity; lowering undoes it
@@ -57,8 +58,8 @@ distinct knots are separated by more than `tol > 0`, with interior multiplicitie
 * keeps `periodic`, `start()`, `end()` and `knot_spans(True)`;
 * keeps `continuity(k)` at every distinct knot `k` (value `p - 1 - multiplicity`);
 and, if `p ≥ 2`, `lower_order(a)` of `b'` returns exactly `b`.
-Not covered: periodic bases (where `BSplineBasis.lower_order` raises `NameError` in the pinned
-code, and the ghost-knot trimming of `raise_order` is only exercised by the correspondence run). -/
+Periodic bases (ghost-knot trimming of `raise_order`) are `C05_knots_periodic`; on them
+`BSplineBasis.lower_order` raises `NameError` in the pinned code (listed finding, also proved there). -/
 theorem C05_knots (tol : K) (htol : 0 < tol) (p a : ℕ) (hp : 1 ≤ p) (x0 xl : K) (umid : List K)
     (mmid : List ℕ) (hlen : umid.length = mmid.length)
     (hsep : Separated tol (clampedU x0 xl umid)) (hm : ∀ j ∈ mmid, 1 ≤ j) :
@@ -170,8 +171,9 @@ num_functions`); `k + 2 ≤ p ≤ k + 1 + μ0` (so `start = w0`) and `μ0 < p` (
 * `continuity` is unchanged (`p − 1 − multiplicity`) at every distinct knot of the period and at `end`;
 * the unfixed `lower_order` raises `NameError` on the result (listed finding), for every amount
   that passes the argument checks.
-Not covered: periodic bases whose ghost regions span more than one period (`n < p`), and — see
-`C05_geometry_partial` — the geometry part (`H_incl`, `H_sw`) for periodic bases. -/
+Not covered: periodic bases whose ghost regions span more than one period (`n < p`).  The geometry
+part for these bases: `H_incl` is `C05_elevation_periodic` (proved), the evaluated map is
+`C05_geometry_periodic_partial` / `C05_geometry_periodic_surface_partial` (relative to `H_sw`). -/
 theorem C05_knots_periodic {tol : K} {p k : ℕ} {w0 : K} {wr : List K} {μ0 : ℕ} {μr : List ℕ} {T : K}
     (h : PerData tol p k w0 wr μ0 μr T) (htol : 0 < tol) (a : ℕ) :
     let b := perBasis p k (w0 :: wr) (μ0 :: μr) T
@@ -305,6 +307,7 @@ the same rationality and number of components, and the homogeneous evaluated map
 `Σ_{k0,k1} N'_{k0}(u) M'_{k1}(v) P'_{k0,k1} = Σ_{a,j} N_a(u) M_j(v) P_{a,j}` (rows of the executable
 `evaluate`) agrees at every `(u, v)` admissible for the old and new bases.  The `Obj.evaluate` form,
 and the volume case, are `Bridge_C05_weak_surface_partial` / `Bridge_C05_weak_volume_partial`.
+All hypotheses are instantiated on the tube `c05Tube` in the non-vacuity section.
 Missing for full strength: `H_sw` for the folded periodic Greville collocation matrix. -/
 theorem C05_geometry_periodic_surface_partial (o : Obj K) (tol : K) (hw : C06.WF o 2) (au av : ℕ)
     (bu' bv' : Basis K) (Eu Ev : ℕ → ℕ → K) (hu : DirOKw tol (o.basis 0) au bu' Eu)
@@ -338,7 +341,8 @@ of the tensor-product interpolation).  `o` has the single basis `b` and control 
 projective space).  ASSUMING
 * `H_incl` — degree-elevation inclusion: some coefficient net `c'` on the elevated basis `b'`
   represents the same (homogeneous) spline, `Σ_k N'_k(t) c'_k = Σ_j N_j(t) c_j` for every `t`
-  (classical theorem, NOT proved here);
+  (a hypothesis of THIS general statement; it is PROVED for clamped bases, `Lemmas/Elevation.lean`,
+  used in `C05_geometry_clamped`, and for standard periodic bases, `C05_elevation_periodic`);
 * `H_sw` — Schoenberg–Whitney for the Greville points of `b'`: the collocation matrix is
   invertible, in the form "the model's certified exact inverse exists" (`Mat.invChecked = ok Ni`)
   resp. "a left inverse `L` exists" for the `Curve` override which solves instead of inverting;
@@ -348,12 +352,18 @@ the model's `raise_order_implicit` returns exactly the net `c'`, so the evaluate
 The left-inverse property of the returned inverse is a theorem (`Mat.invChecked_spec`: the model
 checks the certificate `Ai·A = I` exactly; by `C05_hsw_forms` the check never fails and the two
 forms of `H_sw` are equivalent), not an assumption.
-This is the GENERAL statement (any pair of bases, periodic included).  For clamped non-periodic
-bases `H_incl` is discharged (`C05_geometry_clamped`) and so is `H_sw`
-(`C05_geometry_clamped_full`: a full proof, no analytic hypothesis).  Missing for full strength: `H_sw`; `H_incl` for periodic
-bases; the composition of the per-direction steps for pardim 2–3 (commuting contractions of
-different axes) is not formalised; the link from the model's basis rows to the Cox–de Boor
-specification is property C01. -/
+This is the GENERAL one-directional statement (any pair of bases) from which the others are derived;
+it is `_partial` because both analytic facts are hypotheses here.  Where they are discharged:
+* clamped continuous bases: `H_incl` in `C05_geometry_clamped`, `H_incl` and `H_sw` in
+  `C05_geometry_clamped_full` (no analytic hypothesis; knot-spacing guard);
+* standard periodic bases: `H_incl` in `C05_elevation_periodic` (for every parameter at the Cox–de Boor
+  level; for the executable rows at admissible parameters — `∀ t` is false there because of the
+  snapping near trimmed ghost knots, so the periodic theorems use the `S`-restricted variant
+  `raiseImplicit_curve_on`), `H_sw` remains a hypothesis (`C05_geometry_periodic_partial`);
+* pardim 2–3: the composition of the per-direction steps (commuting contractions of different axes) is
+  formalised in `C05_geometry_clamped_surface` / `_volume` and `C05_geometry_periodic_surface_partial`.
+The link from the model's basis rows to the Cox–de Boor specification is property C01 (used in the
+surface / volume theorems through `C12.SameMap`, and in `Properties/Bridge.lean`). -/
 theorem C05_geometry_partial (o : Obj K) (tol : K) (b b' : Basis K) (a : ℕ) (pts : Array K)
     (n nc : ℕ) (hb : o.bases = #[b]) (hs : o.cps.shape = [n, nc])
     (hb' : b.raiseOrder tol a = .ok b') (hg : b'.greville = .ok pts)
@@ -401,8 +411,8 @@ rationality, the homogeneous evaluated map `Σ_k N'_k(t) P'_k = Σ_j N_j(t) P_j`
 every component, and (weights) a component that is `≥ 0` on all old control points is `≥ 0` on all
 new ones (the elevation matrix is non-negative; strict positivity is not proved).
 `H_sw` is in turn PROVED for continuous clamped bases under a knot-spacing (or exact-Greville-point)
-hypothesis: see `C05_geometry_clamped_full`, which has no analytic hypothesis left.  Still missing
-for the full property: pardim 2–3 composition, periodic bases. -/
+hypothesis: see `C05_geometry_clamped_full`, which has no analytic hypothesis left.  Surfaces and
+volumes: `C05_geometry_clamped_surface` / `_volume`; periodic bases: `C05_geometry_periodic_partial`. -/
 theorem C05_geometry_clamped (tol : K) (htol : 0 < tol) (q a : ℕ) (hqa : 1 ≤ q + a) (x0 xl : K)
     (umid : List K) (mmid : List ℕ) (hlen : umid.length = mmid.length)
     (hsep : Separated tol (clampedU x0 xl umid)) (hm : ∀ j ∈ mmid, 1 ≤ j)
@@ -472,11 +482,15 @@ theorem C05_geometry_clamped (tol : K) (htol : 0 < tol) (q a : ℕ) (hqa : 1 ≤
 parametric direction, `nc` homogeneous components (rational objects included).  `b` is any clamped
 CONTINUOUS basis of order `p = q+1` (end knots of multiplicity `p`, interior distinct knots `umid`
 with multiplicities `1 ≤ mmid ≤ q`), `b'` the basis `b.raise_order(a)` returns, any amount `a ≥ 1`,
-any control net.  Knot hypothesis, one of
-* spacing: distinct knots more than `2·(p'−1)·tol` apart, `p' = q+1+a` the new order (then the
-  tolerance-snapped Greville points stay nested), or
+any control net.
+GUARD (a hypothesis beyond validity of the basis, `hknots`), one of
+* spacing: distinct knots more than `2·(q+a)·tol = 2·(p'−1)·tol` apart, `p' = q+1+a` the new order
+  (then every Greville point keeps a margin `> tol` inside the support of its B-spline,
+  `greville_margins`, and the tolerance-snapped Greville points stay nested), or
 * distinct knots more than `tol` apart and the Greville points of `b'` are `ExactAt tol` (each is
   exactly a knot or farther than `tol` from every knot, so `snap` does not move it).
+`Basis.Valid` (sorted knots, `start < end`) and even `Separated tol` are NOT enough — see "Sharpness"
+below for the counterexample.
 Then, with both `H_incl` (degree-elevation inclusion, `Lemmas/Elevation.lean`) and `H_sw`
 (Schoenberg–Whitney at the Greville points, `Lemmas/SchoenbergWhitney.lean`) PROVED:
 `raise_order_implicit(a)`, the public `SplineObject.raise_order(a)` and `Curve.raise_order(a)` all
@@ -487,10 +501,13 @@ non-negative.  Together with `C05_knots` (orders, domain, periodicity, continuit
 this is the full raise-part of property C05 for clamped bases in one parametric direction.
 Sharpness: some hypothesis beyond `Separated tol` is necessary — with `tol = 1` on knots
 `0,0,0,3/2,3,3,3` snapping collapses two Greville points and the model (like the code) raises
-`LinAlgError` (kernel-checked counterexample at the end of `Lemmas/SchoenbergWhitney.lean`); with
-the default `tol = 1e-10` the spacing hypothesis is satisfied by every generated case.
-Remaining partial for C05: periodic bases, the pardim 2–3 composition of the per-direction steps,
-order-1 results (`q + a = 0`: no Greville points). -/
+`LinAlgError` (kernel-checked counterexample at the end of `Lemmas/SchoenbergWhitney.lean`: the
+Greville points `3/4, 9/4` are snapped to the knots `3/2, 3`); with the default `tol = 1e-10` the
+spacing hypothesis excludes only distinct knots closer than `2(p'−1)·1e-10` and is satisfied by every
+generated case.  The guard is sufficient, not claimed sharp.
+Elsewhere: surfaces / volumes `C05_geometry_clamped_surface` / `_volume`; periodic bases
+`C05_geometry_periodic_partial`; order-1 originals `C05_geometry_order1`.  Not supported by the code:
+an order-1 RESULT (`q + a = 0`: no Greville points, listed finding). -/
 theorem C05_geometry_clamped_full (tol : K) (htol : 0 < tol) (q a : ℕ) (ha : 1 ≤ a) (x0 xl : K)
     (umid : List K) (mmid : List ℕ) (hlen : umid.length = mmid.length)
     (hm : ∀ j ∈ mmid, 1 ≤ j ∧ j ≤ q)
@@ -555,7 +572,12 @@ theorem C05_geometry_order1 (tol : K) (htol : 0 < tol) (a : ℕ) (ha : 1 ≤ a) 
 
 /-- **C05, `lower_order` undoes `raise_order` on clamped bases — FULL (no analytic hypothesis).**
 Same bases as `C05_geometry_clamped_full` with `q ≥ 1` (the original order is at least 2:
-`lower_order` refuses to return to order 1, a listed finding), knot spacing `> 2·(p'−1)·tol`.
+`lower_order` refuses to return to order 1, a listed finding).
+GUARD beyond validity: distinct knots more than `2·(q+a)·tol = 2·(p'−1)·tol` apart (`hgap`, `p'` the
+RAISED order) — the spacing guard of `C05_geometry_clamped_full`, under which the object to be lowered
+exists; it implies the guard `2·q·tol` needed for `H_sw` of the LOWER basis (whose Greville points are
+snapped by `evaluate` in the same way; counterexample without a guard: see
+`C05_geometry_clamped_full`, "Sharpness").
 For ANY object `o'` that is `ElevatedFrom tol b b' nc o ·` — in particular the result of each of
 the three `raise_order` paths of `C05_geometry_clamped_full` — `o'.lower_order(a)` succeeds and
 returns a NEW object with the original basis `b` (original knot vector, `C05_knots`), the original
@@ -598,9 +620,11 @@ elevated object (basis `b'`, net of shape `[n', nc]`) that evaluates to the same
 `C05_geometry_partial` — and let `b'.lower_order(a) = b` (`C05_knots`).  ASSUMING `H_sw` for the
 LOWER basis (the Greville collocation matrix of `b` has the model's certified inverse),
 `o'.lower_order(a)` returns a NEW object with basis `b` whose control points are exactly those of
-`o`.  (General statement; for clamped bases `C05_lower_left_inverse_clamped` has no hypothesis left.)
-Missing for full strength: `H_sw`, `H_incl` for periodic bases, pardim 2–3 composition, and
-periodic bases (where the pinned `BSplineBasis.lower_order` raises `NameError`). -/
+`o`.  This is the GENERAL one-directional statement, `_partial` because `H_sw` of the lower basis and
+the same-map property of `o'` are hypotheses; they are discharged for clamped continuous bases in
+`C05_lower_left_inverse_clamped` (no analytic hypothesis left) and, for pardim 2–3, in
+`C05_lower_left_inverse_clamped_surface` / `_volume`.  It cannot be instantiated for periodic bases:
+the pinned `BSplineBasis.lower_order` raises `NameError` there (`C05_knots_periodic`, listed finding). -/
 theorem C05_lower_left_inverse_partial (o o' : Obj K) (tol : K) (b b' : Basis K) (a : ℕ) (ha : 1 ≤ a)
     (pts2 : Array K) (n n' nc : ℕ) (Ni2 : Mat K)
     (hb : o'.bases = #[b']) (hs : o'.cps.shape = [n', nc]) (hn : n = b.numFunctions)
@@ -617,8 +641,21 @@ theorem C05_lower_left_inverse_partial (o o' : Obj K) (tol : K) (b b' : Basis K)
 /-- **C05, geometry for SURFACES on clamped continuous bases — FULL (no analytic hypothesis).**
 `o` is a well-formed object with two parametric directions (`C06.WF o 2`: two valid bases, control
 array `n_u × n_v × ncomp`, rational or not) whose bases are clamped continuous of orders `q_u+1`,
-`q_v+1` in the form of `C05_knots` (interior multiplicities `1 ≤ m ≤ q`), with distinct knots more
-than `2·(p'−1)·tol` apart (`p'` the NEW order of that direction).  For raise amounts `a_u, a_v ≥ 0`,
+`q_v+1` in the form of `C05_knots` (interior multiplicities `1 ≤ m ≤ q`).
+GUARD (a hypothesis beyond validity of the bases).  `Basis.Valid` only asks for sorted knots and
+`start < end`, and the knot bookkeeping (`C05_knots`) needs `Separated tol` (distinct knots more than
+`tol` apart).  This theorem asks for MORE: in every direction the distinct knots are more than
+`2·(q+a)·tol = 2·(p'−1)·tol` apart, `p'` the NEW order of that direction (`hgap…`).  Reason: the
+collocation matrix is assembled by `evaluate`, which snaps a parameter to any knot closer than `tol`.
+With the spacing every Greville point of `b'` keeps a margin `> tol` inside the support of its B-spline
+(`greville_margins`), so the snapped points still satisfy the Schoenberg–Whitney nesting condition and
+the matrix is invertible.  Without it the statement is FALSE: order 3 on `0,0,0,3/2,3,3,3` with
+`tol = 1` is valid and `Separated tol`, but its Greville points `3/4, 9/4` are snapped to the knots
+`3/2, 3`, two collocation rows coincide and the model (like the code) raises `LinAlgError`
+(kernel-checked at the end of `Lemmas/SchoenbergWhitney.lean`).  The guard is sufficient, not sharp;
+with the default `tol = 1e-10` it excludes only knot vectors with distinct knots closer than
+`2(p'−1)·1e-10`.
+For raise amounts `a_u, a_v ≥ 0`,
 not both `0`, with `q_u + a_u ≥ 1`, `q_v + a_v ≥ 1` (no order-1 result):
 `raise_order_implicit(a_u, a_v)` — which re-interpolates BOTH directions at once through the
 `tensordot` chain `N_old` (v, u) then `inv(N_new)` (v, u), also in a direction whose amount is `0` —
@@ -631,7 +668,7 @@ Proof: the four-step chain is the composition of two per-direction projections (
 of which is the one-directional problem (`H_incl` from `Lemmas/Elevation.lean`, `H_sw` from
 `Lemmas/SchoenbergWhitney.lean`, also at amount `0`); the result is the control net re-netted in
 direction 0 and then 1 (`raiseImplicit_surface_eq`), and re-netting keeps the map
-(`C12.sameMap_of_fibres`). -/
+(`C12.sameMap_of_fibres`).  All hypotheses are instantiated on `c05Surf` in the non-vacuity section. -/
 theorem C05_geometry_clamped_surface (tol : K) (htol : 0 < tol)
     (qu au : ℕ) (hqu : 1 ≤ qu + au) (x0u xlu : K) (umidu : List K) (mmidu : List ℕ)
     (hlenu : umidu.length = mmidu.length) (hmu : ∀ j ∈ mmidu, 1 ≤ j ∧ j ≤ qu)
@@ -686,8 +723,10 @@ theorem C05_geometry_clamped_surface (tol : K) (htol : 0 < tol)
     exact mul_nonneg (hpos a (Finset.mem_range.mp ha) j (Finset.mem_range.mp hj)) (hEv0 j k1)
 
 /-- **C05, `lower_order` undoes `raise_order` on SURFACES — FULL (no analytic hypothesis).**
-Hypotheses of `C05_geometry_clamped_surface` with both original orders at least 2 (`q_u, q_v ≥ 1`:
-`lower_order` refuses to return to order 1).  Let `o'` be the surface `raise_order(a_u, a_v)` returns.
+Hypotheses of `C05_geometry_clamped_surface` — INCLUDING its guard beyond validity: distinct knots of
+each direction more than `2·(q+a)·tol` apart, `hgapu`, `hgapv`; it is needed for the raise (see there
+for the counterexample) and implies the guard `2·q·tol` for `H_sw` of the lower bases — with both
+original orders at least 2 (`q_u, q_v ≥ 1`: `lower_order` refuses to return to order 1).  Let `o'` be the surface `raise_order(a_u, a_v)` returns.
 Then `o'.lower_order(a_u, a_v)` succeeds and returns a NEW object with the original bases (hence the
 original knot vectors), the original control-array shape and rationality, and exactly the original
 control points — so it evaluates to the original map.  (Per direction the lowering interpolation is
@@ -742,12 +781,26 @@ theorem C05_lower_left_inverse_clamped_surface (tol : K) (htol : 0 < tol)
 /-- **C05, geometry for VOLUMES on clamped continuous bases — FULL (no analytic hypothesis).**
 The three-directional analogue of `C05_geometry_clamped_surface`: `o` well formed with three
 parametric directions, every basis clamped continuous (form of `C05_knots`, interior multiplicities
-`1 ≤ m ≤ q`, distinct knots more than `2·(p'−1)·tol` apart with `p'` the new order of the direction),
-raise amounts `a_u, a_v, a_w ≥ 0` not all `0`, no order-1 result.  `raise_order_implicit` (six
+`1 ≤ m ≤ q`).
+GUARD (a hypothesis beyond validity of the bases).  `Basis.Valid` only asks for sorted knots and
+`start < end`, and the knot bookkeeping (`C05_knots`) needs `Separated tol` (distinct knots more than
+`tol` apart).  This theorem asks for MORE: in every direction the distinct knots are more than
+`2·(q+a)·tol = 2·(p'−1)·tol` apart, `p'` the NEW order of that direction (`hgap…`).  Reason: the
+collocation matrix is assembled by `evaluate`, which snaps a parameter to any knot closer than `tol`.
+With the spacing every Greville point of `b'` keeps a margin `> tol` inside the support of its B-spline
+(`greville_margins`), so the snapped points still satisfy the Schoenberg–Whitney nesting condition and
+the matrix is invertible.  Without it the statement is FALSE: order 3 on `0,0,0,3/2,3,3,3` with
+`tol = 1` is valid and `Separated tol`, but its Greville points `3/4, 9/4` are snapped to the knots
+`3/2, 3`, two collocation rows coincide and the model (like the code) raises `LinAlgError`
+(kernel-checked at the end of `Lemmas/SchoenbergWhitney.lean`).  The guard is sufficient, not sharp;
+with the default `tol = 1e-10` it excludes only knot vectors with distinct knots closer than
+`2(p'−1)·1e-10`.
+Raise amounts `a_u, a_v, a_w ≥ 0` not all `0`, no order-1 result.  `raise_order_implicit` (six
 `tensordot` steps) and the public `raise_order(a_u, a_v, a_w)` succeed, the public method returns the
 receiver, the result is well formed with the elevated bases, same rationality and components, and
 `C12.SameMap 3 o o'`: the defining tensor-product sum of every homogeneous component agrees at every
-parameter triple and every choice of sides.  Non-negative components stay non-negative. -/
+parameter triple and every choice of sides.  Non-negative components stay non-negative.  All
+hypotheses are instantiated on the rational volume `c05Vol` in the non-vacuity section. -/
 theorem C05_geometry_clamped_volume (tol : K) (htol : 0 < tol)
     (qu au : ℕ) (hqu : 1 ≤ qu + au) (x0u xlu : K) (umidu : List K) (mmidu : List ℕ)
     (hlenu : umidu.length = mmidu.length) (hmu : ∀ j ∈ mmidu, 1 ≤ j ∧ j ≤ qu)
@@ -819,7 +872,9 @@ theorem C05_geometry_clamped_volume (tol : K) (htol : 0 < tol)
 
 /-- **C05, `lower_order` undoes `raise_order` on VOLUMES — FULL (no analytic hypothesis).**
 The three-directional analogue of `C05_lower_left_inverse_clamped_surface`: hypotheses of
-`C05_geometry_clamped_volume` with all original orders at least 2; `lower_order(a_u, a_v, a_w)` of the
+`C05_geometry_clamped_volume` — including its guard beyond validity, distinct knots of each direction
+more than `2·(q+a)·tol` apart (needed for the raise, see `C05_geometry_clamped_surface` for the
+counterexample; it implies the guard for the lower bases) — with all original orders at least 2; `lower_order(a_u, a_v, a_w)` of the
 volume `raise_order(a_u, a_v, a_w)` returns succeeds and gives a NEW object with the original bases,
 shape, rationality and exactly the original control points. -/
 theorem C05_lower_left_inverse_clamped_volume (tol : K) (htol : 0 < tol)
@@ -991,6 +1046,102 @@ example : ∃ o', c05PerCurve.raiseOrder (1/100) [1] none = .ok (.self, o')
     #[#[1, 0, 0, 0, 0], #[-17/22, 63/22, -27/22, 3/11, -3/22], #[2/11, -51/44, 51/22, -15/22, 15/44],
       #[2/11, 15/44, -15/22, 51/22, -51/44], #[-17/22, -3/22, 3/11, -27/22, 63/22]] (by decide +kernel)
   exact ⟨o', h1, h2⟩
+
+/-- `C05_geometry_clamped_surface` + `C05_lower_left_inverse_clamped_surface` with ALL hypotheses
+    instantiated: the surface `c05Surf` (order 2 on `0,0,1,1` × order 3 on `0,0,0,1,2,2,2`, `2 × 4` net),
+    `tol = 1/100`, raised by `(1, 1)`.  The spacing guards `2·(q+a)·tol = 1/25` resp. `3/50` are below the
+    knot spacing `1`; well-formedness is `c05Surf_wf`. -/
+example : ∃ o' o'', c05Surf.raiseOrder (1/100) [1, 1] none = .ok (.self, o')
+    ∧ C06.WF o' 2 ∧ C12.SameMap 2 c05Surf o'
+    ∧ o'.lowerOrder (1/100) [1, 1] = .ok (.new, o'') ∧ o''.bases = c05Surf.bases
+    ∧ o''.cps.shape = c05Surf.cps.shape := by
+  have hgu : Separated (2 * ((1 + 1 : ℕ) : ℚ) * (1/100)) (clampedU (0 : ℚ) 1 []) := by
+    simp [Separated, clampedU]; norm_num
+  have hgv : Separated (2 * ((2 + 1 : ℕ) : ℚ) * (1/100)) (clampedU (0 : ℚ) 2 [1]) := by
+    simp [Separated, clampedU]; norm_num
+  obtain ⟨o', _, h1, hwf, _, _, hsm, _⟩ := C05_geometry_clamped_surface (K := ℚ) (1/100) (by norm_num)
+    1 1 (by norm_num) 0 1 [] [] rfl (by simp) hgu 2 1 (by norm_num) 0 2 [1] [1] rfl (by simp) hgv
+    (Or.inl (by norm_num)) c05Surf c05Surf_wf rfl rfl
+  obtain ⟨o2, o'', g1, g2, g3, g4, _⟩ := C05_lower_left_inverse_clamped_surface (K := ℚ) (1/100) (by norm_num)
+    1 1 (by norm_num) 0 1 [] [] rfl (by simp) hgu 2 1 (by norm_num) 0 2 [1] [1] rfl (by simp) hgv
+    (Or.inl (by norm_num)) c05Surf c05Surf_wf rfl rfl
+  have e : o2 = o' := by
+    have := g1.symm.trans h1
+    injection this with this
+    injection this
+  subst e
+  exact ⟨o2, o'', h1, hwf, hsm, g2, g3, g4⟩
+
+/-- The model's tensor-product Greville interpolation of that run, evaluated by the kernel (the
+    elevated bases are written out because `List.mergeSort` inside `Basis.raiseOrder` does not reduce in
+    the kernel): the `3 × 6` elevated net of `c05Surf`; re-interpolating it on the original bases
+    (`lower_order(1, 1)`) returns exactly the original `2 × 4` net. -/
+example : ((c05Surf.reinterpolate (1/100) c05SurfUp.bases.toList).toOption.map (fun t => (t.shape, t.data)))
+    = some (c05SurfUp.cps.shape, c05SurfUp.cps.data) := by decide +kernel
+
+example : ((c05SurfUp.reinterpolate (1/100) c05Surf.bases.toList).toOption.map (fun t => (t.shape, t.data)))
+    = some (c05Surf.cps.shape, c05Surf.cps.data) := by decide +kernel
+
+/-- `C05_geometry_clamped_volume` + `C05_lower_left_inverse_clamped_volume` with ALL hypotheses
+    instantiated: the RATIONAL volume `c05Vol` (orders 2, 2, 2; `w` with the interior knot `1`;
+    `2 × 2 × 3` net of 2 homogeneous components), `tol = 1/100`, raised by `(1, 0, 1)` — one direction is
+    re-interpolated with amount `0`. -/
+example : ∃ o' o'', c05Vol.raiseOrder (1/100) [1, 0, 1] none = .ok (.self, o')
+    ∧ C06.WF o' 3 ∧ C12.SameMap 3 c05Vol o' ∧ o'.rational = true
+    ∧ o'.lowerOrder (1/100) [1, 0, 1] = .ok (.new, o'') ∧ o''.bases = c05Vol.bases
+    ∧ o''.cps.shape = c05Vol.cps.shape := by
+  have hg1 : Separated (2 * ((1 + 1 : ℕ) : ℚ) * (1/100)) (clampedU (0 : ℚ) 1 []) := by
+    simp [Separated, clampedU]; norm_num
+  have hg0 : Separated (2 * ((1 + 0 : ℕ) : ℚ) * (1/100)) (clampedU (0 : ℚ) 1 []) := by
+    simp [Separated, clampedU]; norm_num
+  have hgw : Separated (2 * ((1 + 1 : ℕ) : ℚ) * (1/100)) (clampedU (0 : ℚ) 2 [1]) := by
+    simp [Separated, clampedU]; norm_num
+  obtain ⟨o', _, h1, hwf, _, _, _, hsm, _, hrat, _⟩ := C05_geometry_clamped_volume (K := ℚ) (1/100) (by norm_num)
+    1 1 (by norm_num) 0 1 [] [] rfl (by simp) hg1 1 0 (by norm_num) 0 1 [] [] rfl (by simp) hg0
+    1 1 (by norm_num) 0 2 [1] [1] rfl (by simp) hgw (Or.inl (by norm_num)) c05Vol c05Vol_wf rfl rfl rfl
+  obtain ⟨o2, o'', g1, g2, g3, g4, _⟩ := C05_lower_left_inverse_clamped_volume (K := ℚ) (1/100) (by norm_num)
+    1 1 (by norm_num) 0 1 [] [] rfl (by simp) hg1 1 0 (by norm_num) 0 1 [] [] rfl (by simp) hg0
+    1 1 (by norm_num) 0 2 [1] [1] rfl (by simp) hgw (Or.inl (by norm_num)) c05Vol c05Vol_wf rfl rfl rfl
+  have e : o2 = o' := by
+    have := g1.symm.trans h1
+    injection this with this
+    injection this
+  subst e
+  exact ⟨o2, o'', h1, hwf, hsm, hrat, g2, g3, g4⟩
+
+/-- The model's three-directional Greville interpolation of that run, evaluated by the kernel: the
+    elevated net has shape `3 × 2 × 5 × 2`, and re-interpolating it on the original bases returns exactly
+    the original net. -/
+example : ((c05Vol.reinterpolate (1/100) c05VolUpBases).toOption.bind
+      (fun t => ((c05VolUp t).reinterpolate (1/100) c05Vol.bases.toList).toOption.map
+        (fun t' => (t.shape, t'.shape, t'.data))))
+    = some ([3, 2, 5, 2], c05Vol.cps.shape, c05Vol.cps.data) := by decide +kernel
+
+attribute [local instance] c05AdmissibleDec in
+/-- `C05_periodic_direction_partial` + `C05_geometry_periodic_surface_partial` with ALL hypotheses
+    instantiated: the tube `c05Tube` (periodic order 3, `k = 0`, knots `-1,0,0,1,2,2,3` in `u`; order 2 on
+    `0,0,1,1` in `v`; `3 × 2` net), raised by `(1, 1)`.  `H_sw` of the periodic direction (the certified
+    inverse of the 5×5 folded Greville collocation matrix), its Greville points and their admissibility
+    are evaluated by the kernel; the clamped direction needs no hypothesis. -/
+example : ∃ o', c05Tube.raiseOrder (1/100) [1, 1] none = .ok (.self, o') ∧ C06.WF o' 2
+    ∧ o'.basis 0 = perBasis (3 + 1) 0 ((0 : ℚ) :: [1]) ((2 :: [1]).map (· + 1)) 2 := by
+  obtain ⟨Eu, _, hdu⟩ := C05_periodic_direction_partial c05PerData (by norm_num) 1
+    #[0, 1/3, 2/3, 4/3, 5/3] (by decide +kernel) (by decide +kernel)
+    #[#[1, 0, 0, 0, 0], #[-17/22, 63/22, -27/22, 3/11, -3/22], #[2/11, -51/44, 51/22, -15/22, 15/44],
+      #[2/11, 15/44, -15/22, 51/22, -51/44], #[-17/22, -3/22, 3/11, -27/22, 63/22]] (by decide +kernel)
+  obtain ⟨Ev, _, hdv⟩ := dirOK_clamped (K := ℚ) (1/100) (by norm_num) 1 1 (by norm_num) 0 1 [] [] rfl (by simp)
+    (by simp [Separated, clampedU]; norm_num)
+  obtain ⟨o', h1, _, hwf, hb0, _⟩ := C05_geometry_periodic_surface_partial c05Tube (1/100) c05Tube_wf 1 1 _ _ Eu Ev
+    hdu hdv.weak (Or.inl (by norm_num))
+    (raiseGuard_periodic' (1/100) _ (by decide) _)
+  exact ⟨o', h1, hwf, hb0⟩
+
+/-- The model's Greville interpolation of that run, evaluated by the kernel: the `5 × 3` elevated
+    net of the tube. -/
+example : ((c05Tube.reinterpolate (1/100) [perBasis 4 0 ((0 : ℚ) :: [1]) (3 :: [2]) 2,
+      openBasis 3 (clampedU 0 1 []) (clampedM 3 [])]).toOption.map (fun t => (t.shape, t.data)))
+    = some ([5, 3, 2], #[0, 0, 0, 1/2, 0, 1, 4/3, 0, 4/3, 7/6, 4/3, 7/3, 11/6, 1/2, 11/6, 23/12, 11/6, 10/3, 7/6,
+      5/2, 7/6, 43/12, 7/6, 14/3, 2/3, 2, 2/3, 17/6, 2/3, 11/3]) := by decide +kernel
 
 attribute [local instance] c05BasisDecEq
 
